@@ -18,6 +18,11 @@ pub fn corrupt(rng: &mut Rng, stream: &mut Vec<u8>, header_len: usize) -> &'stat
         stream.len()
     };
     let pos = rng.below(limit.max(1));
+    if rng.chance(1, 16) {
+        // a byte order mark in front of everything (text that went through an editor / file)
+        stream.splice(0..0, "\u{feff}".bytes());
+        return "corrupt_bom_prefix";
+    }
     match rng.below(9) {
         0 => {
             stream[pos] ^= 1 << rng.below(8);
